@@ -321,6 +321,10 @@ func checkC08(p *Prog, r *Report) {
 				if !ok {
 					continue
 				}
+				// only the map of DID entries (values are DIDDocumentWithSeq): a further family's map is not a DID-entry export
+				if mt, isMap := mu.Map.Type().Underlying().(*types.Map); !isMap || !strings.HasSuffix(mt.Elem().String(), "DIDDocumentWithSeq") {
+					continue
+				}
 				kt, vt := o.Of(mu.Key), o.Of(mu.Value)
 				// value = &GetDIDDocument(ctx, did); key = did (possibly through the key type's Marshal)
 				var get *Term
@@ -335,6 +339,57 @@ func checkC08(p *Prog, r *Report) {
 				r.Check(ok2, kp("ORIGIN", "x/did.ExportGenesis#key=store-key-of-exported-entry"), "export: each entry is exported under the identifier it is stored under", p.Pos(mu.Pos()),
 					"key ≡ did of GetDIDDocument(ctx, did)", fmt.Sprintf("key=%v value=%v", kt, vt))
 			}
+		}
+	}
+
+	// further families of the did store (a feature's own prefix): what handlers write there is exported and imported too
+	if len(dm.extraOps) > 0 {
+		reachOf := func(name string) map[*ssa.Function]bool {
+			out := map[*ssa.Function]bool{}
+			if f := p.Func(Rel("x/did"), name); f != nil {
+				for _, g := range p.ReachFrom([]*ssa.Function{f}, func(g *ssa.Function) bool { return InModule(g) && !p.IsGenerated(g) }).Order {
+					out[g] = true
+				}
+			}
+			return out
+		}
+		expR, impR := reachOf("ExportGenesis"), reachOf("InitGenesis")
+		var hroots []*ssa.Function
+		for _, h := range dm.handlers {
+			hroots = append(hroots, h)
+		}
+		hR := map[*ssa.Function]bool{}
+		for _, g := range p.ReachFrom(hroots, func(g *ssa.Function) bool { return InModule(g) && !p.IsGenerated(g) }).Order {
+			hR[g] = true
+		}
+		type st struct{ written, exported, imported bool }
+		fams := map[string]*st{}
+		for _, so := range dm.extraOps {
+			f := familyOfPrefix(PrefixName(so.Prefix))
+			if fams[f] == nil {
+				fams[f] = &st{}
+			}
+			switch so.Op {
+			case "Set", "Delete":
+				if hR[so.Fn] {
+					fams[f].written = true
+				}
+				if impR[so.Fn] {
+					fams[f].imported = true
+				}
+			case "Get", "Iterator", "ReverseIterator":
+				if expR[so.Fn] {
+					fams[f].exported = true
+				}
+			}
+		}
+		for _, f := range keysOfSt(fams) {
+			x := fams[f]
+			if !x.written {
+				continue
+			}
+			r.Check(x.exported && x.imported, kp("WMC", "did-family:"+f+"#exported+imported"), "every family of the did store that handlers write is read by ExportGenesis and written by InitGenesis", "x/did/genesis.go",
+				"exported and imported", fmt.Sprintf("family %s is written by handlers but exported=%v imported=%v: that state is lost across export/import", f, x.exported, x.imported))
 		}
 	}
 
@@ -493,14 +548,17 @@ func checkC08(p *Prog, r *Report) {
 				for _, in := range b.Instrs {
 					if rg, ok := in.(*ssa.Range); ok {
 						if _, isMap := rg.X.Type().Underlying().(*types.Map); isMap {
-							bad = FuncName(f) + " at " + p.Pos(rg.Pos())
+							// a range whose body only does keyed writes / validation is insensitive to the iteration order (C09's classification)
+							if why := mapLoopOrderSensitive(p, f, rg); why != "" {
+								bad = FuncName(f) + " at " + p.Pos(rg.Pos()) + " (" + why + ")"
+							}
 						}
 					}
 				}
 			}
 		}
-		r.Check(bad == "", kp("ORDER", mod+".ExportGenesis#no-map-iteration"), "exporting the same state twice gives identical bytes: no exporter iterates over a Go map", p.FnPos(e),
-			fmt.Sprintf("%d functions on the export path, none ranges over a map", len(reach.Order)), "map iteration on the export path: "+bad+" (export order would differ between runs/nodes)")
+		r.Check(bad == "", kp("ORDER", mod+".ExportGenesis#no-map-iteration"), "exporting the same state twice gives identical bytes: no exporter iterates over a Go map with an order-sensitive body", p.FnPos(e),
+			fmt.Sprintf("%d functions on the export path, none ranges over a map with an order-sensitive body", len(reach.Order)), "map iteration on the export path: "+bad+" (export order would differ between runs/nodes)")
 		// D9: the exported value is built from this call's own containers: nothing on the export path writes memory that outlives
 		// the call (a package-level variable, also through a struct copy that shares its maps; a field of a long-lived struct)
 		var pathFns []*ssa.Function
@@ -550,6 +608,15 @@ func checkUnconditionalLoopEffectByCallee(p *Prog, r *Report, key string, fn *ss
 }
 
 func keysOf(m map[string]bool) []string {
+	var out []string
+	for k := range m {
+		out = append(out, k)
+	}
+	sort.Strings(out)
+	return out
+}
+
+func keysOfSt[T any](m map[string]*T) []string {
 	var out []string
 	for k := range m {
 		out = append(out, k)
